@@ -28,7 +28,7 @@ ASSUMPTIONS = ["reference model vmon/ref/gto.py after self-test (HORTON kinetic 
 
 
 def gen_cases(tier, seed):
-    reps = 2 if tier == "quick" else 360
+    reps = 5 if tier == "quick" else 360
     cases = []
     for rep in range(reps):
         for (la, lb) in itertools.product(range(6), repeat=2):
